@@ -110,7 +110,16 @@ def judge(pre, op, post, res, obs, meta):
         v.append(Viol(PROP, kind, dict(sig, **extra), detail))
 
     med = ref.media(pre)
-    if res.exc is not None or res.exit not in (0, 10, 11):
+    # exit 30 is the documented answer when a nested history that the latest generation references has been removed
+    # from disk (the generation is still written); everything else outside 0 / 10 / 11 is an abort
+    allowed = {0, 10, 11}
+    gens_r = ref.generations(pre, R)
+    if gens_r:
+        for r in ref.read_manifest(gens_r[-1]["bytes"])["references"]:
+            child_ascmhl = ((R + "/") if R else "") + "/".join(r["path"].split("/")[:-1])
+            if child_ascmhl not in pre:
+                allowed.add(30)
+    if res.exc is not None or res.exit not in allowed:
         V("abort", f"{ops.label(op)}: exit {res.exit} exc {res.exc} tb {res.tb}\n{res.err[-300:]}",
           exc=(res.exc or "").split(":")[0], where=res.tb[-1][1] if res.tb else None)
         return v
@@ -184,7 +193,8 @@ def main(tier, seed):
         plans = [dict(k=3, max_gens=2, max_edits=1, pool="p", sf2=False), dict(k=2, max_gens=2, max_edits=1, pool="p"),
                  dict(k=3, max_gens=2, max_edits=0, pool="t", sf2=False)]
     else:
-        plans = [dict(k=3, max_gens=3, max_edits=1, pool="p", sf2=False), dict(k=5, max_gens=2, max_edits=1, pool="p"),
+        plans = [dict(k=3, max_gens=3, max_edits=1, pool="p", sf2=False), dict(k=4, max_gens=2, max_edits=1, pool="p"),
+                 dict(k=5, max_gens=2, max_edits=0, pool="p", sf2=False),
                  dict(k=3, max_gens=2, max_edits=1, pool="x", rich=True), dict(k=4, max_gens=3, max_edits=1, pool="t", sf2=False)]
     tot = {"states": 0, "transitions": 0}
     runs = []
